@@ -191,6 +191,24 @@ def property_checks(inp):
             n0 = int(cm.n_subaps[0])
             want = sc.create_tomographic_covariance_reconstructor(M2, n0, 1e-3)
         A(("reconstructor follows the rebuilt matrix", float(numpy.abs(numpy.asarray(R2) - want).max() / max(numpy.abs(want).max(), 1e-300)), 0.0))
+        # ... and the rebuilt matrix is that of the CURRENT parameters (guide stars re-pointed, profile changed): the
+        # reconstructor of a re-used object equals the reconstructor of a fresh object with those parameters
+        import common
+        cfgB = scc.perturbed(cfg, common.Rng(inp["data_seed"] % (2 ** 30)))
+        with warnings.catch_warnings():
+            warnings.simplefilter("ignore")
+            cmA = scc.build(cfg, 1); cmA.make_covariance_matrix(); cmA.make_tomographic_reconstructor(svd_conditioning=1e-3)
+            fresh = scc.build(cfgB, 1)
+            for a_ in scc.REUSE_ATTRS:
+                v_ = getattr(fresh, a_)
+                if isinstance(getattr(cmA, a_), numpy.ndarray) and getattr(cmA, a_).shape == numpy.shape(v_) and inp["data_seed"] % 2:
+                    getattr(cmA, a_)[...] = v_
+                else:
+                    setattr(cmA, a_, numpy.array(v_, copy=True) if isinstance(v_, numpy.ndarray) else v_)
+            cmA.make_covariance_matrix(); Rre = numpy.asarray(cmA.make_tomographic_reconstructor(svd_conditioning=1e-3))
+            fresh.make_covariance_matrix(); Rfr = numpy.asarray(fresh.make_tomographic_reconstructor(svd_conditioning=1e-3))
+        A(("reconstructor of a re-used, re-pointed object = reconstructor of a fresh object with the current parameters",
+           0.0 if numpy.array_equal(Rre, Rfr, equal_nan=True) else float(numpy.nanmax(numpy.abs(Rre - Rfr)) / max(float(numpy.nanmax(numpy.abs(Rfr))), 1e-300) + 1e-30), 0.0))
     return out
 
 
